@@ -440,14 +440,18 @@ fn diag_dominant(a: &G) -> bool {
     by_rows || by_cols
 }
 
-fn check_factors(a: &G, l: &G, u: &G, p: Option<&G>) -> Result<(), String> {
+fn check_factors(a: &G, l: &G, u: &G, p: Option<&G>, finite_owed: bool) -> Result<(), String> {
     let n = a.h;
     for (name, m) in [("L", l), ("U", u)].into_iter().chain(p.map(|p| ("P", p))) {
         if m.h != n || m.w != n {
             return Err(format!("{name} is {}x{} for a {n}x{n} input", m.h, m.w));
         }
+    }
+    for (name, m) in [("L", l), ("U", u)].into_iter().chain(p.map(|p| ("P", p))) {
         if let Some(k) = m.v.iter().position(|x| !x.is_finite()) {
-            return Err(format!("{name}[{}][{}] is not finite", k / n.max(1), k % n.max(1)));
+            // outside the safe range an overflow may be the correct answer of the formula: the plug-in decides there
+            // (it has a certificate for "nothing can overflow"); here the factors are then not judged
+            return if finite_owed { Err(format!("{name}[{}][{}] is not finite", k / n.max(1), k % n.max(1))) } else { Ok(()) };
         }
     }
     for i in 0..n {
@@ -487,6 +491,11 @@ fn check_factors(a: &G, l: &G, u: &G, p: Option<&G>) -> Result<(), String> {
     let lb: Vec<Big> = l.v.iter().map(|x| Big::of_f64(*x)).collect();
     let ub: Vec<Big> = u.v.iter().map(|x| Big::of_f64(*x)).collect();
     let tol = Big::int(n as i64).mul(&Big::pow2(6 - 53));
+    // gradual underflow (tiny and huge entries in one matrix): a product l_ik u_kj or a quotient below 2^-1022 is rounded to a
+    // multiple of 2^-1074, an absolute error of at most 2^-1075 each: 2^6 2^-1075 (min(i,j) + 1 + [i > j] |u_jj|) is allowed on
+    // top of the relative bound (negligible everywhere else); an entry whose bound |L||U| reaches 2^1024 is not judged
+    let eta = Big::pow2(6 - 1075);
+    let top = Big::pow2(1024);
     for i in 0..n {
         for j in 0..n {
             let mut s = Big::zero();
@@ -496,12 +505,19 @@ fn check_factors(a: &G, l: &G, u: &G, p: Option<&G>) -> Result<(), String> {
                 sa = sa.add(&t.abs());
                 s = s.add(&t);
             }
+            if top.le(&sa) {
+                continue;
+            }
             let target = a.at(sigma[i], j);
             if !target.is_finite() {
                 return Err("input entry not finite".into());
             }
+            let mut steps = Big::int(i.min(j) as i64 + 1);
+            if i > j {
+                steps = steps.add(&ub[j * n + j].abs());
+            }
             let r = s.sub(&Big::of_f64(target)).abs();
-            if !r.le(&tol.mul(&sa)) {
+            if !r.le(&tol.mul(&sa).add(&eta.mul(&steps))) {
                 return Err(format!(
                     "|L U - {}A| exceeds 2^6 n u |L||U| at ({i},{j})",
                     if p.is_some() { "P " } else { "" }
@@ -544,8 +560,19 @@ fn oracle(plu: bool, input: &Input, out: &Out) -> Result<(), String> {
     // NaN / infinite entries are outside the property; entries outside 2^-340 .. 2^340 can under- or overflow in a
     // product of three, where the (purely relative) rounding model of the clauses below does not apply: such inputs
     // are generated, but only compared with the model
-    if !a.v.iter().all(|x| x.is_finite() && (*x == 0.0 || (x.abs() >= SAFE_LO && x.abs() <= SAFE_HI))) {
+    if !a.v.iter().all(|x| x.is_finite()) {
         return Ok(());
+    }
+    if !a.v.iter().all(|x| *x == 0.0 || (x.abs() >= SAFE_LO && x.abs() <= SAFE_HI)) {
+        // MIXED EXTREMES: returned factors are judged at every magnitude (structure, |l_ij| <= 1, the exact reconstruction
+        // bound with its underflow allowance) as long as they are finite; what must be refused / factored / finite there
+        // is decided by the plug-in (exact rational elimination)
+        return match out {
+            Out::Lu(l, u) if !plu => check_factors(&a, &G::of_arr(l), &G::of_arr(u), None, false),
+            Out::Plu(l, u, p) if plu => check_factors(&a, &G::of_arr(l), &G::of_arr(u), Some(&G::of_arr(p)), false),
+            Out::Lu(..) | Out::Plu(..) => Err("wrong result arity".into()),
+            _ => Ok(()),
+        };
     }
     let (expect, why) = expectation(plu, &a);
     match out {
@@ -563,7 +590,7 @@ fn oracle(plu: bool, input: &Input, out: &Out) -> Result<(), String> {
             if expect == Some(false) {
                 return Err(format!("factored although it cannot be: {why}"));
             }
-            check_factors(&a, &G::of_arr(l), &G::of_arr(u), None)
+            check_factors(&a, &G::of_arr(l), &G::of_arr(u), None, true)
         }
         Out::Plu(l, u, p) => {
             if !plu {
@@ -572,7 +599,7 @@ fn oracle(plu: bool, input: &Input, out: &Out) -> Result<(), String> {
             if expect == Some(false) {
                 return Err(format!("factored although it cannot be: {why}"));
             }
-            check_factors(&a, &G::of_arr(l), &G::of_arr(u), Some(&G::of_arr(p)))
+            check_factors(&a, &G::of_arr(l), &G::of_arr(u), Some(&G::of_arr(p)), true)
         }
         Out::Panic => unreachable!(),
     }
@@ -1359,5 +1386,99 @@ fn harden(rng: &mut Rng, thorough: bool, emit: &mut dyn FnMut(String)) {
         let t = rng.below((n * n) as u64) as usize;
         v[t] = [f64::NAN, f64::INFINITY, f64::NEG_INFINITY, 1e308, -1.7e308, 5e-324][k % 6];
         both(emit, FKINDS[k % 3], n, &v);
+    }
+    mixed_extremes(rng, thorough, emit);
+}
+
+/// MIXED EXTREMES INSIDE ONE OBJECT (fourth seeded round): entries near the bottom of the range (subnormal, down to the
+/// last bit 2^-1074) and near the top (2^900 .. 2^1020) in the SAME matrix, placed so that their product is an ordinary
+/// number: `[[P, H], [E, D]]` with an ordinary diagonally dominant block `P` (magnitude 2^-6 .. 2^6), `q x m` huge entries `H`
+/// in the rows of `P`, `m x q` tiny entries `E` below `P`, and `D` of the magnitude of `E P^-1 H` times 2^delta, delta =
+/// 0 .. 20: the elimination multiplies a tiny multiplier `e / p` by a huge pivot-row entry and subtracts an ordinary number
+/// from an ordinary number, and every pivot stays far above EPSILON.  Orders 2..6, 1..n-1 tiny rows, rows in order (plain
+/// LU factors them too) or shuffled, exact zeros among the tiny entries, real and small-dyadic units, all three f64
+/// container kinds; the same with the tiny entries in the normal range (2^-1022 .. 2^-60) and huge ones to match.  The
+/// reconstruction clause is judged exactly (with the underflow allowance) by both oracles.
+fn mixed_extremes(rng: &mut Rng, thorough: bool, emit: &mut dyn FnMut(String)) {
+    let reps = if thorough { 10 } else { 1 };
+    let unit = |rng: &mut Rng, exact: bool| -> f64 {
+        if exact { *rng.pick(&[1.0, -1.0, 0.5, -0.5, 1.5, -1.5, 0.75, 1.25]) } else { rng.uniform(0.5, 1.0) * sgn(rng) }
+    };
+    for k in 0..300 * reps {
+        let n = 2 + k % 5;
+        let m = 1 + rng.below(n as u64 - 1) as usize;
+        let q = n - m;
+        let exact = k % 4 == 3;
+        let e_eps = match k % 6 {
+            0 | 1 => -rng.range(1023, 1040),
+            2 | 3 => -rng.range(1040, 1074),
+            4 => -rng.range(960, 1022),
+            _ => -rng.range(60, 960),
+        };
+        let delta = if rng.chance(1, 4) { rng.range(0, 20) } else { rng.range(0, 6) };
+        let e_p = rng.range(-6, 6);
+        // e_d = e_eps + e_h - e_p + delta within -44 .. 30, e_h <= 1020 (and >= 900 whenever the tiny side allows it)
+        let e_d_hi = (1020 + e_eps - e_p + delta).min(30);
+        let e_d = rng.range((-44i64).min(e_d_hi), e_d_hi);
+        let e_h = e_d - e_eps + e_p - delta;
+        let mut v = vec![0.0; n * n];
+        for i in 0..q {
+            let mut off = 0.0;
+            for j in 0..q {
+                if i != j {
+                    let x = if exact { rng.range(-2, 2) as f64 * 0.5 } else { rng.uniform(-1.0, 1.0) };
+                    v[i * n + j] = x * p2(e_p);
+                    off += x.abs();
+                }
+            }
+            let d = if exact { off.max(1.0) + 1.0 } else { off + rng.uniform(0.5, 1.0) };
+            v[i * n + i] = d * sgn(rng) * p2(e_p);
+            for j in q..n {
+                v[i * n + j] = if rng.chance(1, 6) && m * q > 1 { 0.0 } else { unit(rng, exact) * p2(e_h) };
+            }
+        }
+        let mut any = false;
+        for i in q..n {
+            for j in 0..q {
+                let x = if rng.chance(1, 4) { 0.0 } else { unit(rng, exact) * p2(e_eps) };
+                any |= x != 0.0;
+                v[i * n + j] = x;
+            }
+            for j in q..n {
+                v[i * n + j] = if i == j { (2 * n) as f64 * sgn(rng) } else { unit(rng, exact) } * p2(e_d);
+            }
+        }
+        if !any {
+            v[q * n] = p2(e_eps);
+        }
+        if (0..q).all(|i| (q..n).all(|j| v[i * n + j] == 0.0)) {
+            v[q] = p2(e_h);
+        }
+        if k % 3 == 2 {
+            shuffle_rows(rng, n, &mut v);
+        }
+        both(emit, FKINDS[k % 3], n, &v);
+    }
+    // the smallest instances, spelled out: [[1, c h], [e, d]] and the 3 x 3 with an ordinary row in between, every tiny
+    // exponent -1022 .. -1074, rows in order and exchanged
+    for t in 0..=52i64 {
+        let e_eps = -1022 - t;
+        for (c, delta) in [(1.0, 1i64), (-1.5, 0), (0.75, 4)] {
+            let e_h = 1020 - t / 8;
+            let e_d = (e_eps + e_h + delta).max(-44);
+            let v = [1.0, c * p2(e_h), p2(e_eps), 2.0 * p2(e_d)];
+            both(emit, FKINDS[(t as usize) % 3], 2, &v);
+            emit_mat(emit, "plu", FKINDS[(t as usize + 1) % 3], 2, 2, &[v[2], v[3], v[0], v[1]]);
+            let w = [2.0, 0.5, c * p2(e_h), 0.25, 1.0, 0.0, p2(e_eps), -p2(e_eps), 2.0 * p2(e_d)];
+            both(emit, FKINDS[(t as usize + 2) % 3], 3, &w);
+        }
+    }
+    // decimal spellings around the bottom of the normal range (2.2250738585072014e-308) and the top
+    for (k, (e, h, d)) in [(2e-308, 1e300, 4e-8), (2.3e-308, 1e300, 4e-8), (1.5e-308, 3e299, 1e-8), (1e-310, 1e302, 1e-5), (5e-309, 1.5e300, 1e-7), (5e-324, 1e307, 1e-15), (1e-300, 1e292, 2e-8), (1e-200, 1e192, 2e-8)]
+        .into_iter()
+        .enumerate()
+    {
+        both(emit, FKINDS[k % 3], 2, &[1.0, h, e, d]);
+        both(emit, FKINDS[(k + 1) % 3], 3, &[1.0, 0.0, h, 0.0, 2.0, -h, e, -e, d]);
     }
 }
